@@ -850,6 +850,35 @@ fn dump_consts<'tcx>(cx: &mut Cx<'tcx>) -> String {
                 mir::ConstValue::Indirect { alloc_id, offset } => {
                     kv.push(("indirect_offset", jnum(offset.bytes())));
                     kv.push(("alloc", dump_alloc(tcx, alloc_id, 0)));
+                    // a table of enum / struct values (`[Option<usize>; 6]`): element by element, variant and scalar fields
+                    if let ty::Array(et, _) = t.kind() {
+                        if let ty::Adt(..) = et.kind() {
+                            if let Some(d) = tcx.try_destructure_mir_constant_for_user_output(val, t) {
+                                let mut els = vec![];
+                                for (ev, ety) in d.fields.iter() {
+                                    let mut ek: Vec<(&str, String)> = vec![("ty", cx.ty(*ety))];
+                                    if let Some(ed) = tcx.try_destructure_mir_constant_for_user_output(*ev, *ety) {
+                                        if let Some(v) = ed.variant {
+                                            ek.push(("variant", jnum(v.as_u32())));
+                                        }
+                                        let mut fs = vec![];
+                                        for (fv, fty) in ed.fields.iter() {
+                                            let mut fk: Vec<(&str, String)> = vec![("ty", cx.ty(*fty))];
+                                            if let Some(si) = fv.try_to_scalar_int() {
+                                                let size = si.size();
+                                                fk.push(("bits", jstr(&format!("{}", si.to_bits(size)))));
+                                                fk.push(("size", jnum(size.bytes())));
+                                            }
+                                            fs.push(jobj(fk));
+                                        }
+                                        ek.push(("fields", jarr(fs)));
+                                    }
+                                    els.push(jobj(ek));
+                                }
+                                kv.push(("elems", jarr(els)));
+                            }
+                        }
+                    }
                 }
             },
             Err(_) => kv.push(("eval_error", jbool(true))),
